@@ -261,6 +261,11 @@ class Abstractor:
             return self.av(args[0], _d + 1).with_tag(f"round:{dec if dec is not None else 0}")
         if last in TRANSPARENT_FUNCS and args and not isinstance(e.func, ast.Attribute) or (last in ("AbstractArray", "array", "asarray") and args):
             return self.av(args[0], _d + 1)
+        if not isinstance(e.func, ast.Attribute) and last in ("enumerate", "reversed", "zip", "iter", "chain", "dict", "frozenset") and args:
+            out = EMPTY
+            for a in args:
+                out = out | self.av(a, _d + 1)
+            return out
         if last in FUNC_TAGS:
             out = EMPTY
             for a in args:
